@@ -334,7 +334,11 @@ def compare_fault_tolerant(hist, it, mt):
             fa = la is not None and la.startswith("fault")
             fb = lb is not None and lb.startswith("fault")
             if fa or fb:
-                events.append(dict(header=header, ops=ops[: k + 1], step=k, impl=la, model=lb,
+                # after a safe panic that follows a caught one the harness keeps executing
+                # silently; an abort further on appears as one more `fault ub` line
+                later = [x for x in a[k + 1:] if x.startswith("fault ub") or x.startswith("fault fuel")]
+                events.append(dict(header=header, ops=ops[: k + 1] if not later else ops, step=k,
+                                   impl=later[0] if later else la, model=lb,
                                    lines=a[:k], all_ops=ops))
                 break
             if la != lb:
@@ -342,6 +346,14 @@ def compare_fault_tolerant(hist, it, mt):
                     diverged = dict(id=hid, header=header, ops=ops, step=k,
                                     op=ops[k] if k < len(ops) else None,
                                     impl=la or "<missing>", model=lb or "<missing>")
+                # the model no longer describes this history; an abort / out-of-bounds
+                # access of the implementation further on is a failing input all the same
+                hard = [k2 for k2 in range(k, len(a)) if a[k2].startswith(("fault ub", "fault fuel"))]
+                soft = [k2 for k2 in range(k, len(a)) if a[k2].startswith("fault")]
+                if hard or soft:
+                    k2 = (hard or soft)[0]
+                    events.append(dict(header=header, ops=ops if hard else ops[: k2 + 1], step=k2, impl=a[k2],
+                                       model="(diverged at step %d)" % k, lines=a[:min(k2, len(ops))], all_ops=ops))
                 break
     return diverged, events
 
